@@ -73,11 +73,22 @@ where T: Canon + for<'b> Decode<'b, ()>
 {
     let mut d = Decoder::new(inp);
     d.set_position(pos);
-    let r: Result<T, _> = d.decode();
+    let (r, allocated): (Result<T, _>, usize) = crate::ops_seq::measure(|| d.decode());
     let p = d.position();
     let out = show_res(r, p, |x| x.show());
-    let verdict = if p > pos.max(inp.len()) { Err(format!("position {} beyond input", p)) } else { Ok(()) };
+    let verdict = if p > pos.max(inp.len()) { Err(format!("position {} beyond input", p)) }
+                  else if allocated > crate::ops_seq::alloc_bound(inp.len()) { Err(format!("{} bytes allocated for {} input bytes", allocated, inp.len())) }
+                  else { Ok(()) };
     with_oracle(out, verdict)
+}
+
+/// typed decode on an existing decoder (SEQ)
+fn dt_d<'b, T>(d: &mut Decoder<'b>) -> String
+where T: Canon + Decode<'b, ()>
+{
+    let r: Result<T, _> = d.decode();
+    let p = d.position();
+    show_res(r, p, |x| x.show())
 }
 
 /// borrowed targets: the result must point into the input
@@ -108,6 +119,9 @@ macro_rules! registry {
             match key { $( $key => { let v = <$t as Canon>::parse(&mut P::new(val));
                                       if minicbor::to_vec(&v).is_err() { return Some("refused".into()) }
                                       Some(crate::ops_sink::on_sink(kind, cap, &crate::ops_sink::Enc(&v))) } )* _ => None }
+        }
+        pub fn dt_on_dispatch<'b>(key: &str, d: &mut Decoder<'b>) -> Option<String> {
+            match key { $( $key => Some(dt_d::<$t>(d)), )* _ => None }
         }
         pub fn dt_dispatch(key: &str, inp: &[u8], pos: usize) -> Option<String> {
             match key { $( $key => Some(dt::<$t>(inp, pos)), )* _ => dt_borrowed(key, inp, pos) }
